@@ -434,9 +434,11 @@ func (p *Proxy) handleConnectRequest(ctx *Context, req *http.Request, session *S
 		log.Errorf("martian: got error while flushing response back to client: %v", err)
 	}
 
-	cbw := bufio.NewWriter(cconn)
+	// No bufio.Writer toward the target: payload that arrived together with
+	// the CONNECT head is already in brw's read buffer, io.Copy would park it
+	// in the writer's buffer and nothing would be sent before 4096 bytes.
+	var cbw io.Writer = cconn
 	cbr := bufio.NewReader(cconn)
-	defer cbw.Flush()
 
 	copySync := func(w io.Writer, r io.Reader, donec chan<- bool) {
 		if _, err := io.Copy(w, r); err != nil && err != io.EOF {
